@@ -199,7 +199,7 @@ func appendJsonValue(buf *[]byte, v slog.Value, colorful bool) {
 			appendJsonMarshal(buf, va)
 		} else if vv, ok := va.(error); ok {
 			*buf = append(*buf, '"')
-			appendJsonString(buf, vv.Error())
+			appendJsonString(buf, safeErrorString(vv))
 			*buf = append(*buf, '"')
 		} else if vv, ok := va.(AnsiString); ok {
 			*buf = append(*buf, '"')
